@@ -3,6 +3,8 @@ import Gama.Model.Ellipsoid
 import Gama.Model.Angles
 import Gama.Model.Bearing
 import Gama.Model.GeoLiterals
+import Gama.Model.GeoGrammar
+import Gama.Lemmas.GeoDmsParse
 open Gama Gama.Proto
 
 abbrev St := Ellipsoid Float
@@ -147,6 +149,28 @@ def step (e : St) (line : String) : St × String :=
     | [] | [_] =>
       match unhexStr (rest.headD "") with
       | some s => (e, s!"flag {if Literals.isFloat s.toList then 1 else 0}")
+      | none => bad
+    | _ => bad
+  -- the documented formats (Gama/Model/GeoGrammar.lean) decided by the derivative matcher: third party of the tie
+  | "rxint" :: rest =>
+    match rest with
+    | [] | [_] =>
+      match unhexStr (rest.headD "") with
+      | some s => (e, s!"flag {if Grammar.integerRx.accepts s.toList then 1 else 0}")
+      | none => bad
+    | _ => bad
+  | "rxflt" :: rest =>
+    match rest with
+    | [] | [_] =>
+      match unhexStr (rest.headD "") with
+      | some s => (e, s!"flag {if Grammar.floatRx.accepts s.toList then 1 else 0}")
+      | none => bad
+    | _ => bad
+  | "rxdms" :: rest =>
+    match rest with
+    | [] | [_] =>
+      match unhexStr (rest.headD "") with
+      | some s => (e, s!"flag {if Angles.dmsDecide s.toList then 1 else 0} {if Grammar.dmsRx.accepts s.toList then 1 else 0}")
       | none => bad
     | _ => bad
   | _ => bad
